@@ -374,7 +374,11 @@ func classifyErr(err error) string {
 	if errors.As(err, &ue) || errors.As(err, &ne) || errors.Is(err, context.Canceled) || errors.Is(err, context.DeadlineExceeded) {
 		return errFixture
 	}
-	return errOther
+	// Any other error: C16 asks WHETHER a failure is reported (and not cached), not in which words or class - the
+	// mapping of response codes to the documented errors is C14's business, and response codes outside 1..5 have no
+	// documented error at all. An error that is reported although the upstream answered is judged by the callers
+	// (error-while-upstream-answered), whatever its class.
+	return errUpstream
 }
 
 // countQueries: upstream queries per qtype of name in a log; other counts everything else.
